@@ -285,9 +285,14 @@ parse_next_record_header:
     }
     else if (ssl->rec.type == SSL_RECORD_TYPE_ALERT)
     {
-        if (ssl->rec.len < 2 + TLS_GCM_TAG_LEN)
+        if (ssl->rec.len < 2 + TLS_GCM_TAG_LEN &&
+            !(DECRYPTING_RECORDS(ssl) && ssl->hsState == SSL_HS_DONE))
         {
-            /* If it's this short, it cannot be an encrypted. */
+            /* If it's this short, it cannot be an encrypted. Only while
+               the handshake is in progress can the peer still be without
+               write keys: on an established connection an unprotected
+               alert is not the peer's (forged close_notify = truncation)
+               and goes to the record protection like anything else. */
             rc = tls13ParseAndHandleAlert(ssl,
                     &pb,
                     in,
